@@ -15,16 +15,22 @@ variable {α ρ : Type} [LT α] [DecidableLT α] [Sub α] [Max α]
 variable {expf : α → α} {nonFinite : α → Bool} {llf : ρ → α} {lib : List (LibRow ρ α)} {c : Cfg}
   {idx : Option (List Nat)} {grow : Nat → Nat → Nat → Nat → Nat} {uus : List (List α)} {res : Res ρ α}
 
-/-- Budget: never more than `max_prior_samples` (which must not exceed the library size) evaluations; the number
-evaluated is the sum of the batch sizes of the rounds and the number of evaluated rows reported. -/
+/-- Budget: never more than `max_prior_samples` **or the library size** evaluations (`Cfg.budget = min` of the two: a budget
+above the library size means the whole library, on both code paths); the number evaluated is the sum of the batch sizes of
+the rounds and the number of evaluated rows reported. -/
 theorem budget (h : iterativeSample expf nonFinite llf lib c idx grow uus = .ok res) :
-    res.evaluated ≤ c.maxPrior.getD lib.length ∧ c.maxPrior.getD lib.length ≤ lib.length ∧
+    res.evaluated ≤ c.budget lib.length ∧ c.budget lib.length ≤ lib.length ∧
+    (∀ m, c.maxPrior = some m → res.evaluated ≤ m) ∧
     (res.blocks.map (·.2)).sum = res.evaluated ∧ res.out.evalRows.length = res.evaluated ∧
     res.out.allLls.length = res.evaluated := by
   obtain ⟨h1, _, h3, h4, h5, h6, h7, _⟩ := iterativeSample_facts h
   have hlen : res.out.evalRows.length = res.evaluated := by
     rw [h6, List.length_take, h3]; omega
-  refine ⟨h4, h1, by simpa using (tiles_cover _ _ _ h5).2, hlen, ?_⟩
+  refine ⟨h4, h1, ?_, by simpa using (tiles_cover _ _ _ h5).2, hlen, ?_⟩
+  · intro m hm
+    have : c.budget lib.length ≤ m := by
+      unfold Cfg.budget; rw [hm]; exact Nat.min_le_left _ _
+    omega
   rw [gather_length h7, hlen]
 
 /-- No library row is evaluated twice: the rounds evaluate consecutive, disjoint blocks of positions of
@@ -34,7 +40,7 @@ theorem budget (h : iterativeSample expf nonFinite llf lib c idx grow uus = .ok 
 theorem no_row_twice (h : iterativeSample expf nonFinite llf lib c idx grow uus = .ok res) :
     Tiles res.blocks 0 res.evaluated ∧
     res.blocks.flatMap (fun b => List.range' b.1 b.2) = List.range res.evaluated ∧
-    res.out.evalRows = (evalOrder (c.maxPrior.getD lib.length) idx).take res.evaluated ∧
+    res.out.evalRows = (evalOrder (c.budget lib.length) idx).take res.evaluated ∧
     (idx = none → res.out.evalRows = List.range res.evaluated ∧ res.out.evalRows.Nodup) ∧
     (∀ ix, idx = some ix → ix.Nodup → res.out.evalRows.Nodup) := by
   obtain ⟨_, _, _, h4, h5, h6, _⟩ := iterativeSample_facts h
@@ -93,11 +99,10 @@ theorem accepted_by_rule (h : iterativeSample expf nonFinite llf lib c idx grow 
 /-- A library too small for the request makes it raise (`ValueError`), before anything is evaluated. -/
 theorem small_library_raises (expf : α → α) (nonFinite : α → Bool) (llf : ρ → α) (lib : List (LibRow ρ α))
     (c : Cfg) (idx : Option (List Nat)) (grow : Nat → Nat → Nat → Nat → Nat) (uus : List (List α))
-    (hb : c.maxPrior.getD lib.length ≤ lib.length)
-    (hs : c.maxPrior.getD lib.length < c.initBatch.getD (c.growth * c.req)) :
+    (hs : c.budget lib.length < c.initBatch.getD (c.growth * c.req)) :
     iterativeSample expf nonFinite llf lib c idx grow uus = .error .value := by
   unfold iterativeSample
-  simp [Nat.not_lt.mpr hb, hs]
+  simp [hs]
 
 /-- The call yields a sample table or an error — there is no third kind of result; and on the guarded
 (in-memory) path a successful call has seen only finite likelihoods. -/
@@ -128,7 +133,13 @@ example : (match iterativeSample toyExp (fun _ => false) id toyLib toyCfg none (
 
 example : iterativeSample toyExp (fun _ => false) id toyLib ⟨2, none, some 7, 128, 1, 128, false⟩ none
     (fun _ _ _ _ => 3) [] = .error .value :=
-  small_library_raises _ _ _ _ _ _ _ _ (by decide) (by decide)
+  small_library_raises _ _ _ _ _ _ _ _ (by decide)
+
+/-- a budget above the library size is the library size: the request is served from the whole library -/
+example : (match iterativeSample toyExp (fun _ => false) id toyLib ⟨2, some 50, some 3, 128, 1, 128, false⟩ none
+      (fun _ _ _ _ => 3) [[9, 1, 9], [9, 1, 9, 2, 5, 5]] with
+    | .ok res => (res.evaluated, res.out.full)
+    | .error _ => (0, [])) = (6, [1, 5]) := by decide
 
 end Examples
 end Iter
